@@ -38,6 +38,7 @@ mod scope_names;
 mod scope_oracle;
 mod suite_scope;
 mod suite_tree;
+mod suite_validdoc;
 mod html_gen;
 mod html_oracle;
 mod html_tok;
@@ -74,6 +75,7 @@ fn main() {
         "exec-forest" => suite_forest::exec_stdin(&mut sink),
         "idmap" => suite_idmap::run(seed, count, tier, &mut sink),
         "axes" => suite_axes::run(seed, count, tier, &mut sink),
+        "validdoc" => suite_validdoc::run(seed, count, tier, &mut sink),
         "ser" => suite_ser::run(seed, count, tier, &mut sink),
         "fws" => suite_fws::run(seed, count, tier, &mut sink),
         "scope" => suite_scope::run(seed, count, tier, &mut sink),
